@@ -78,7 +78,7 @@ func (cx *Checker) Unroll(p *XProg, method string, dom *Domain) *Unrolled {
 	}
 	cx.mu.Unlock()
 	e.once.Do(func() {
-		outs, trunc := EnumeratePaths(dom, cx.MaxPaths, func(r *Run) interface{} {
+		outs, trunc := EnumeratePaths(dom, cx.MaxPaths, func(r *Path) interface{} {
 			return cx.m.Exec(r, cx.fn(method), p, nil)
 		})
 		e.u = &Unrolled{Paths: outs, Trunc: trunc}
@@ -303,6 +303,83 @@ func (cx *Checker) EvalLR(c *Case) []*core.Obl {
 	})
 	cx.setMethod(o, "Eval")
 	return append([]*core.Obl{o}, cx.SafetyObls(c, "Eval", dom, un)...)
+}
+
+// ---------------------------------------------------------------- P2: C02
+
+// DirectiveObl: the program compiled from the options map and the one compiled
+// from the equivalent leading ";;;; k:v, ..." directive are identical node for node.
+func (cx *Checker) DirectiveObl(c *Case, dir *XProg) *core.Obl {
+	o := cx.newObl("directive=options", c)
+	switch {
+	case dir == nil:
+		o.Status = core.Unknown
+		o.Output = "no directive-form program"
+	case !dir.OK():
+		o.Status = core.Refuted
+		o.Detail = "directive form does not compile: " + dir.Err + dir.Panic
+		o.Witness = fmt.Sprintf("src=%s cfg=%s: options compile, directive form fails: %s%s", c.Text, c.Cfg, dir.Err, dir.Panic)
+	case dir.FP != c.Prog.FP || dir.Dump != c.Prog.Dump:
+		o.Status = core.Refuted
+		o.Detail = "programs differ"
+		o.Witness = fmt.Sprintf("src=%s cfg=%s: options map gives %s, directive gives %s", c.Text, c.Cfg, oneLine(c.Prog.Dump), oneLine(dir.Dump))
+	default:
+		discharge(o, "driver")
+	}
+	return o
+}
+
+func oneLine(s string) string { return strings.Join(strings.Fields(s), " ") }
+
+// C02: for the program compiled under the case's optimisation subset, every
+// variable bound:
+//   U-if-value : Eval(P_c) is a value  =>  U(src) is defined and equal
+//   U-if-AllOK : AllOK(src)            =>  Eval(P_c) = U(src)
+//   LR-if-value: Reordering off and LR(src) is a value => Eval(P_c) = LR(src)
+func (cx *Checker) C02(c *Case, rels []string) []*core.Obl {
+	dom := &Domain{AllBound: true}
+	un := cx.Unroll(c.Prog, "Eval", dom)
+	var out []*core.Obl
+	for _, rel := range rels {
+		defs := NewDefs()
+		rf := NewRef(nil, defs)
+		var o *core.Obl
+		switch rel {
+		case "U-if-value":
+			uv, ud := rf.U(c.Src)
+			Uv, Ud := defs.Define("Uv", uv), defs.Define("Ud", ud)
+			o = cx.pathObl(rel, c, dom, defs, nil, un, func(pc *T, rr *RunResult) *T {
+				if !rr.Returned() {
+					return nil
+				}
+				return And(pc, IsENil(rr.E), Not(And(Ud, Eq(rr.V, Uv))))
+			})
+		case "U-if-AllOK":
+			uv, _ := rf.U(c.Src)
+			Uv, OK := defs.Define("Uv", uv), defs.Define("AllOK", rf.AllOK(c.Src))
+			o = cx.pathObl(rel, c, dom, defs, nil, un, func(pc *T, rr *RunResult) *T {
+				if !rr.Returned() {
+					return nil
+				}
+				return And(pc, OK, Not(And(IsENil(rr.E), Eq(rr.V, Uv))))
+			})
+		case "LR-if-value":
+			if c.Job.Mask&8 != 0 {
+				continue
+			}
+			lv, le := rf.LR(c.Src)
+			LRv, LRe := defs.Define("LRv", lv), defs.Define("LRe", le)
+			o = cx.pathObl(rel, c, dom, defs, nil, un, func(pc *T, rr *RunResult) *T {
+				if !rr.Returned() {
+					return nil
+				}
+				return And(pc, IsENil(LRe), Not(And(IsENil(rr.E), Eq(rr.V, LRv))))
+			})
+		}
+		cx.setMethod(o, "Eval")
+		out = append(out, o)
+	}
+	return append(out, cx.SafetyObls(c, "Eval", dom, un)...)
 }
 
 // ---------------------------------------------------------------- helpers
